@@ -77,10 +77,21 @@ def _task_wrapper(args):
 _POOL = None
 
 
+def _worker_init():
+    """Workers must not outlive the check: ask the kernel to kill them when the parent dies."""
+    try:
+        import ctypes
+        import signal
+
+        ctypes.CDLL("libc.so.6", use_errno=True).prctl(1, signal.SIGKILL)  # PR_SET_PDEATHSIG
+    except Exception:
+        pass
+
+
 def pool():
     global _POOL
     if _POOL is None:
-        _POOL = cf.ProcessPoolExecutor(max_workers=n_workers(), mp_context=mp.get_context("fork"))
+        _POOL = cf.ProcessPoolExecutor(max_workers=n_workers(), mp_context=mp.get_context("fork"), initializer=_worker_init)
     return _POOL
 
 
